@@ -13,3 +13,5 @@ def check(rep, tier):
     from contracts import core_backward
     rep.run(core_backward.run_proof, rep, tier, which=('backward_pass',))
     rep.run(tracer_ftba.run_unbounded, rep, tier)
+    from contracts import diffops
+    rep.run(diffops.run_nary, rep, tier, clauses=("UN-reentrant",))
